@@ -146,8 +146,13 @@ Qed.
    lets ORaise e escape (Crash e / FCrash e); reading a name that is not a field is an AttributeError; from_raw iterates
    sorted(fields_to_check) ([from_raw3 = from_raw3_ord sort_s]; the theorems hold for every order).  [two O] is the two-valued
    reading of an oracle table; the theorems of part I are about  from_raw_ord ord (two O)  and transfer through C17_bridge.
-   The TRUSTED ASSUMPTION of the property statement - a component raises nothing but its documented exception - is the explicit
-   hypothesis [documented_on O data] (on the values of this dict) / [documented O] (on every string). *)
+   One trusted assumption of the property statement - SpecifierSet, Requirement, canonicalize_license_expression and the e-mail header
+   parser raise nothing but their documented exception - is the explicit hypothesis [documented_on O data] (on the values of this dict) /
+   [documented O] (on every string).  It covers these FOUR callees only.  The other three are not oracles: Version (the C01/C12 model
+   [VMeaning.Version]), canonicalize_name ([Names.valid_name]) and the pathlib tests ([o3_path], a total bool) are modelled as TOTAL - they
+   accept or reject, they never raise anything else; that this holds of the code is trusted (sampled by the correspondence run).  The
+   model's Version has NO DIGIT LIMIT: a version with a component of more than 4300 digits is valid in the model and rejected by the code
+   (InvalidMetadata since 71d4b23) - finding D10, matcher match_c17_d10; no theorem below says anything about the code on such input. *)
 
 (* 8. the bridge: either a component that the validation reaches raises something undocumented, and exactly that escapes from from_raw;
       or none does, and the three-valued model IS the model of part I *)
@@ -174,8 +179,11 @@ Theorem C17_reject_group3 O data ord : well_typed data -> documented_on O data -
   exists es, from_raw3_ord ord O true data = FGroup es /\ Permutation es (errors3 O data).
 Proof. apply reject_group3. Qed.
 Print Assumptions C17_reject_group3.
-(* 9b. WITHOUT the assumption: success, or one non-empty group, or an escaping exception - the last exactly when a component behind a
-       field that the validation reaches (present, known, not newer than the declared version) raises; the escaping exception is that one *)
+(* 9b. WITHOUT the assumption on the four oracle components: success, or one non-empty group, or an escaping exception - in the MODEL the
+       last happens iff one of the four ORACLE components behind a field that the validation reaches (present, known, not newer than the
+       declared version) raises, and the escaping exception is that one.  "Iff" is about the model: [raised_in] lists the four oracles
+       because Version / canonicalize_name / pathlib cannot raise there (see the header of part II); an undocumented exception of one of
+       those in the code would be a disagreement found only by the correspondence run. *)
 Theorem C17_outcome3 O data ord : well_typed data -> (forall l, Permutation (ord l) l) ->
   (escapes3 O data = false /\ ((exists s, from_raw3_ord ord O true data = FOk s) \/ (exists es, es <> [] /\ from_raw3_ord ord O true data = FGroup es))) \/
   (escapes3 O data = true /\ exists c k, from_raw3_ord ord O true data = FCrash c /\ reached O data k /\ is_field k = true /\ raised_in O k (lookup k data) c).
@@ -191,8 +199,12 @@ Theorem C17_requires_dist_first_failure O l e : req_all O l = ORaise e <->
 Proof. apply req_all_raise. Qed.
 Print Assumptions C17_requires_dist_first_failure.
 
-(* 10. "individually valid" for Requires-Python, Requires-Dist and License-Expression MEANS the grammars of C05/C06, C08 and C19: the
-       oracles instantiated with the models of those properties ([O_models]; the e-mail header parser and pathlib stay parameters) *)
+(* 10. an INSTANCE of 9 (the proof is one application of it): the oracles instantiated with the models of C05/C06, C08 and C19
+       ([O_models]; the e-mail header parser and pathlib stay parameters), so that "individually valid" for Requires-Python, Requires-Dist
+       and License-Expression reads as membership in those grammars (C17_models_validity unfolds it).  This is NOT stronger than 9: the
+       component models never answer ORaise for what the real components raise on - Requirement's RecursionError on a marker nested about
+       450 deep (finding D44) is an accepted requirement in ReqModel - so [documented_on OM] no longer excludes such input and the
+       theorem then speaks about the models only.  Run by the command m.from_raw_models (stream "models") against the real code. *)
 Theorem C17_accept_iff_models ctype path data ord : let OM := O_models ctype path in
   well_typed data -> documented_on OM data -> (forall l, Permutation (ord l) l) ->
   ((exists s, from_raw3_ord ord OM true data = FOk s) <->
@@ -238,7 +250,10 @@ Theorem C17_attr3 O data k :
   (documented_on O data -> compute3 O k (lookup k data) = compute (two O) k (lookup k data)).
 Proof. split; [apply attr3_field | split; [apply attr3_nonfield | apply documented_compute]]. Qed.
 Print Assumptions C17_attr3.
-(* clause 4 restated on the fields only (C17_absent_is_none of part I also covers names that are not fields, where Python raises) *)
+(* clause 4 restated on the fields only (C17_absent_is_none of part I also covers names that are not fields, where Python raises).
+   Both statements are one unfolding of [getattr3].  [is_field k = false] also covers names that ARE attributes of the class (from_raw,
+   _raw, __dict__ ...), where Python returns the method / dict and raises nothing: those are not attribute reads of the property and the
+   harness never reads them (ASSUMPTIONS of c17.py). *)
 Theorem C17_absent_field_is_none O data k : is_field k = true -> required k = false -> lookup k data = None -> reads3 O (init data) [k] = [Ok ENone].
 Proof. apply absent_field_is_none. Qed.
 Print Assumptions C17_absent_field_is_none.
@@ -305,8 +320,10 @@ Proof. vm_compute. reflexivity. Qed.
    Dicts and their values are heap objects; from_raw allocates a new dict object with the same entries (data.copy(): a SHALLOW copy, the
    value objects stay shared); `del instance._raw[name]` mutates the dict object the instance refers to. *)
 
-(* 14. after from_raw and any sequence of attribute reads - the validation loop of from_raw(validate=True) is one - the caller's dict
-       object has the same entries and no value object of the heap has changed *)
+(* 14. after from_raw and any sequence of attribute reads the caller's dict object has the same entries (this conjunct fails for
+       from_raw_nocopy) and no value object of the heap has changed (this conjunct holds because [hread] never writes a value object: a
+       converter that changed its argument in place is not expressible in the model; the correspondence run m.heap would show it).
+       from_raw(validate=True) is covered through 14d/14e: its validation is the read sequence [validation_reads]. *)
 Theorem C17_caller_dict_untouched O w dl d ks : lookup dl (w_dicts w) = Some d ->
   let '(w1, hi) := from_raw_h w dl in
   let '(w', _, _) := hreads O w1 hi ks in
@@ -333,7 +350,52 @@ Theorem C17_shared_and_own_objects O w w' hi k :
   (forall e, lookup k (hi_cache hi) = Some (COwn e) -> hread O w' hi k = (w', hi, Ok e)).
 Proof. split; [intros l v'; apply shared_object_visible | intros e H; now apply (own_object_stable O w w' hi k e)]. Qed.
 Print Assumptions C17_shared_and_own_objects.
+(* 14d. from_raw(validate=True), when it succeeds, leaves the object in exactly the state that the reads [validation_reads O data] -
+        metadata_version, then every present or required field not newer than the declared version, in sorted order - leave a lazy one in *)
+Theorem C17_validation_is_reads O data s : from_raw3 O true data = FOk s -> s = reads3_state O (init data) (validation_reads O data).
+Proof. apply validation_is_reads. Qed.
+Print Assumptions C17_validation_is_reads.
+(* 14e. the validated object on the heap: whatever reads [vks] the construction performs ([validation_reads] for validate=True), the
+        caller's dict object and every value object are as before, and the object answers every later read sequence like the object [s]
+        the functional from_raw returns for the content of the caller's dict *)
+Theorem C17_validated_object_on_heap O w d dl ord s vks ks : (forall kl, In kl d -> exists v, lookup (snd kl) (w_vals w) = Some v) ->
+  lookup dl (w_dicts w) = Some d -> from_raw3_ord ord O true (deref w d) = FOk s ->
+  let '(w1, hi) := from_raw_h w dl in
+  let '(w2, hi2, _) := hreads O w1 hi vks in
+  (lookup dl (w_dicts w2) = Some d /\ w_vals w2 = w_vals w) /\
+  let '(_, _, rs) := hreads O w2 hi2 ks in rs = reads3 O s ks.
+Proof. intros C. now apply validated_object_on_heap. Qed.
+Print Assumptions C17_validated_object_on_heap.
+
 (* non-vacuity: with the copy the caller keeps its keys, WITHOUT it (from_raw_nocopy) two reads delete two of them; a shared list changed
    in place shows through the object, a converted one and a re-bound key do not *)
 Example C17_heap_nonvacuous : heap_check = true.
 Proof. exact heap_check_ok. Qed.
+
+(* witnesses asked for by the re-audit.
+   C17_errors_one_per_key with several offending keys: data_bad (part I) has five - dynamic (newer), bogus (unknown), requires_dist
+   (invalid), name and version (missing) - and its group is exactly one member per key, in dict order, no Metadata-Version member.
+   The from_email_doc theorems on a non-empty document: an accepted one (with a read of a parsed field), one whose group holds an unparsed
+   key and an invalid field, and one where Requirement raises. *)
+Definition one_per_key_check : bool :=
+  let offs := [asc "dynamic"; asc "bogus"; asc "requires_dist"; asc "name"; asc "version"] in
+  match mv_errors O_ex data_bad with [] => true | _ => false end &&
+  seqb (join [10] (errors O_ex data_bad)) (join [10] (map name_of offs)) && (length (errors O_ex data_bad) =? 5)%nat &&
+  forallb (fun k => (length (filter (seqb k) offs) =? 1)%nat) offs && forallb (fun k => (length (filter (seqb k) (map fst data_bad)) =? 1)%nat) (map fst data_bad).
+Example C17_one_per_key_witness : one_per_key_check = true.
+Proof. vm_compute. reflexivity. Qed.
+
+Definition hd_item (n v : string) := {| i_name := asc n; i_val := asc v; i_valid := true |}.
+Definition doc_check : bool :=
+  let ok_doc := [hd_item "Metadata-Version" "2.1"; hd_item "NAME" "a"; hd_item "Version" "1.0"; hd_item "Keywords" "x, y"; hd_item "Requires-Dist" "x"] in
+  let bad_doc := [hd_item "Metadata-Version" "2.1"; hd_item "Name" "a b"; hd_item "Version" "1.0"; hd_item "X-Foo" "1"; hd_item "Summary" "s"; hd_item "summary" "t"] in
+  let deep_doc := [hd_item "Metadata-Version" "2.1"; hd_item "Name" "a"; hd_item "Version" "1.0"; hd_item "Requires-Dist" "deep"] in
+  match from_email_doc O3_ex true ok_doc (POk (asc "body")), from_email_doc O3_ex true bad_doc (POk []), from_email_doc O3_ex true deep_doc (POk []) with
+  | FOk s, FGroup g, FCrash c =>
+      match reads3 O3_ex s [asc "keywords"; asc "description"] with [Ok (EList [_; _]); Ok (EStr _)] => true | _ => false end &&
+      seqb (join [44] (sort_s g)) (asc "name,summary,x-foo") && seqb c (asc "RecursionError") &&
+      negb (match doc_unparsed bad_doc (POk []) with [] => true | _ => false end)
+  | _, _, _ => false
+  end.
+Example C17_from_email_doc_witness : doc_check = true.
+Proof. vm_compute. reflexivity. Qed.
